@@ -8,7 +8,7 @@ CONSTANTS
   Fees = {10000, 40000}
   Gaps = {1, 2, 3, 4, 5, 6, 7}
   MaxId = 6
-  MaxNow = 60
-  D = 24
+  MaxNow = 400
+  D = 30
 INVARIANT Inv Emit
 CHECK_DEADLOCK FALSE
